@@ -88,7 +88,11 @@ def to_str(P, x, conv=-1, spec=None):
 
 
 def str_method(P, s, name, args, kwargs):
-    concrete = isinstance(s, str) and all(not is_sym(a) for a in args)
+    def _conc(x):
+        if isinstance(x, (list, tuple)):
+            return all(_conc(y) for y in x)
+        return x is None or isinstance(x, (str, int, bool))
+    concrete = isinstance(s, str) and all(_conc(a) for a in args)
     if concrete:
         try:
             r = getattr(s, name)(*args, **kwargs)
@@ -153,6 +157,8 @@ def str_method(P, s, name, args, kwargs):
                 return [mk_str(a.z), mk_str(b.z)]
             return [s]
         # general split: a list of unknown length >= 1
+        if not P.branch(z3.Contains(z, zsep)):
+            return [s]
         n = P.fresh_int("split_n")
         P.assume(n.z >= 1)
         f = P.fresh_fn("split_part", IntS, StrS)
